@@ -32,8 +32,9 @@ func checkC11(c *Ctx) {
 	c.R.Floor("F6.gate", 3)
 	c.R.Floor("F7.read", 1)
 	c.R.Floor("F8.args", 1)
-	c.ruleDefinitionAttrs("F12.def")
-	c.R.Floor("F12.def", 8)
+	if c.ruleDefinitionAttrs("F12.def") == 0 {
+		c.R.Infof("F12.def", "-", "definition", "-", "not decided for this shape: every variable definition handed to the store by the typed accessors is a parameter of a helper")
+	}
 }
 
 func checkC12(c *Ctx) {
